@@ -54,11 +54,11 @@ example : (Uf2.read uf2Witness 476).toOption.map (·.ret) = some (-1) := by deci
 example : (Uf2.read (uf2Witness.set! 16 0xdc) 476).toOption.map (fun r => (r.ret, r.mem.writes.length)) = some (0, 476) := by
   decide +kernel
 
-/-- `read_elf` on every byte string and every file system seek limit: a result — `name[128]` is never indexed
+/-- `read_elf` on every byte string and every file system seek limit: a result — `name[256]` (128 before proposed fix C03-14) is never indexed
 out of range, the section copy loop and the symbol loop end within `size + 2` rounds each, the two section
 table walks make `max 0 e_shnum <= 65535` rounds. -/
-theorem read_elf_total (maxOff : Nat) (f : Bytes) : ∃ r, Elf.read maxOff f 128 = .ok r :=
-  Elf.read_total maxOff f 128 (by omega)
+theorem read_elf_total (maxOff : Nat) (f : Bytes) : ∃ r, Elf.read maxOff f 256 = .ok r :=
+  Elf.read_total maxOff f 256 (by omega)
 
 /-- `read_macho` on every byte string: a result — all four loops (load commands, sections, text bytes,
 symbols) end within `size + 2` rounds each, `name[128]` stays in bounds. -/
